@@ -79,6 +79,13 @@ Theorem C01_wavelet_multilevel : forall (R : StarRing) level L n (flo fhi glo gh
 Proof. exact wavedec_adjoint. Qed.
 Print Assumptions C01_wavelet_multilevel.
 
+(* two dimensions (wavedec2 / waverec2 on a row-major (n1, n2) image: the filter bank along the last axis, then along the first; bands
+   [aa, ad, da, dd] per level, recursion on aa): the same statement for every level count and image size *)
+Theorem C01_wavelet_2d : forall (R : StarRing) level L n1 n2 (flo fhi glo ghi : nat -> R),
+  filters_match L flo glo -> filters_match L fhi ghi -> adjoint_pair (wavedec2_op level L n1 n2 flo fhi glo ghi).
+Proof. exact wavedec2_adjoint. Qed.
+Print Assumptions C01_wavelet_2d.
+
 (* ... and only then: for signals of length >= 2 one level is an adjoint pair iff both filter pairs match. This decides
    known finding KF-01 for every wavelet from its filter bank alone: bior/rbio (other than 1.1) have rec <> reversed dec. *)
 Theorem C01_wavelet_adjoint_iff : forall (R : StarRing) L n (flo fhi glo ghi : nat -> R), (2 <= n)%nat ->
